@@ -1,3 +1,4 @@
 pub mod archive;
 pub mod bytes;
+pub mod fs;
 pub mod strings;
